@@ -5,6 +5,7 @@ from hypothesis import strategies as st
 from vlib import strat as S, oracles as O
 
 ID = "C13"
+TARGETED = True     # thorough tier uses hypothesis.target on the residual/tolerance ratios
 RULE = ("Hypothesis: cell over the C01 domain x six strain components in [-0.1,0.1] (with weight on 0 and on +-0.1) x "
         "rotation spec x module. Non-trivial = |eps|_inf > 0.01 with an oblique cell and a non-axis-aligned U")
 ASSUMPTIONS = ["tolerance 1e-9 on strains (measured 1e-13), relative to max|B| on B matrices",
